@@ -1,26 +1,63 @@
-(* C01: compact literals for the correspondence cases.  The harness writes a batch whose columns
-   are all one-hot over at most 8 symbols as one number per sequence: the base-8 numeral whose
-   q-th digit (least significant first) is the index of the 1 in column q.  [decn] expands it
-   (inside vm_compute) to the nested 0/1 lists the model and the spec work on.  Batches with any
-   other column (malformed inputs, unexpected outputs) are written out in full.  Elaborating the
-   nested list literals, not evaluating model and spec, dominated the cost of a case.  No proof
-   depends on this file. *)
-From TM Require Import Base.Prelude Base.OneHot.
+(* C01: the shape of a correspondence case, and compact literals.  No proof depends on this file.
+
+   A case is a FAMILY of calls made one after the other, in one process, on the same caller-owned
+   tensor object X (and re-using motif / list / RandomState objects): [mcase] = X and the list of
+   (operation, what the implementation did, were all caller objects still bit-identical
+   afterwards).  Its verdict is the worst verdict of its calls, each judged by [Spec.check_case]
+   on the call rebuilt with X.  A single call is a family of one.
+
+   Literals: elaborating numerals costs Coq about 50 microseconds per digit, far more than
+   evaluating model and spec, so a batch whose columns are all one-hot is written as ONE
+   hexadecimal numeral: column q of example b is digit number b*L+q (least significant first)
+   in base 2^w, w = 1, 2 or 3 bits per column.  [decb] expands it inside vm_compute.  Batches
+   with any other column (malformed inputs, unexpected outputs) are written out in full. *)
+From TM Require Import Base.Prelude Base.OneHot C01.Model C01.Spec.
 Open Scope Z_scope.
+
+Inductive op :=
+| OSub (M : tensor) (start : option Z)
+| OIns (M : tensor) (start : option Z)
+| ODel (s e : Z)
+| OMulti (ms : list tensor) (sp : list Z) (start : option Z)
+| ORand (s e : Z) (Rs : list tensor).
+
+Definition to_call (X : tensor) (o : op) : call :=
+  match o with
+  | OSub M start => CSub X M start
+  | OIns M start => CIns X M start
+  | ODel s e => CDel X s e
+  | OMulti ms sp start => CMulti X ms sp start
+  | ORand s e Rs => CRand X s e Rs
+  end.
+
+Definition step := (op * outcome * bool)%type.
+Definition mcase := (tensor * list step)%type.
+
+Definition check_mcase (c : mcase) : nat :=
+  let '(X, l) := c in
+  fold_right (fun (s : step) acc => let '(o, out, u) := s in
+                Nat.max (check_case (to_call X o, out, u)) acc) 0%nat l.
 
 Definition ohcol (A : nat) (k : Z) : col :=
   map (fun j => if Z.of_nat j =? k then 1 else 0) (seq 0 A).
 
-Fixpoint digits (L : nat) (n : Z) : list Z :=
+Fixpoint digits (w : Z) (L : nat) (n : Z) : list Z :=
   match L with
   | O => []
-  | S l => (n mod 8) :: digits l (n / 8)
+  | S l => (n mod 2 ^ w) :: digits w l (n / 2 ^ w)
   end.
 
-Definition decn (A L : nat) (ns : list Z) : batch :=
-  map (fun n => map (ohcol A) (digits L n)) ns.
+Fixpoint rows (w : Z) (B L : nat) (n : Z) : list (list Z) :=
+  match B with
+  | O => []
+  | S b => digits w L n :: rows w b L (n / 2 ^ (w * Z.of_nat L))
+  end.
 
-(* "AT" / "GC" over {A,C,G,T}: 0 + 3*8 = 24, 2 + 1*8 = 10 *)
-Example decn_example :
-  decn 4 2 [24; 10] = [[[1;0;0;0]; [0;0;0;1]]; [[0;0;1;0]; [0;1;0;0]]].
+Definition decb (w : Z) (A B L : nat) (n : Z) : batch := map (map (ohcol A)) (rows w B L n).
+
+Definition tb (w : Z) (A B L : nat) (n : Z) : tensor := T A L (decb w A B L n).
+
+(* "AT" / "GC" over {A,C,G,T}, 2 bits per column: A=0 T=3 | G=2 C=1 -> 0 + 3*4 + 2*16 + 1*64 = 0x6c *)
+Example decb_example :
+  decb 2 4 2 2 0x6c = [[[1;0;0;0]; [0;0;0;1]]; [[0;0;1;0]; [0;1;0;0]]].
 Proof. reflexivity. Qed.
